@@ -524,6 +524,8 @@ class Interp:
             return VInt(int(v)) if isinstance(v, int) else VAny(self.ctx._const('signal.' + name, Val))
         if q in EXC_PARENTS:
             return VClass(q)
+        if name in EXC_PARENTS and mod not in self.prog.modules:
+            return VClass(name)
         if mod == 'select' and name == 'error':
             return VClass('OSError')
         if mod == 'socket' and name == 'timeout':
@@ -869,7 +871,14 @@ class Interp:
                 v = self.eval(k.value, fr)
                 if isinstance(v, VObj) and self.ctx.heap[v.oid].kind == 'dict' and 'keys' in self.ctx.heap[v.oid].fields:
                     hh = self.ctx.heap[v.oid]
-                    if not hh.fields['keys']:
+                    ok = True
+                    for kk, vv in zip(hh.fields['keys'], hh.fields['vals']):
+                        kz = z3.simplify(kk.t) if isinstance(kk, VStr) else None
+                        if kz is None or not z3.is_string_value(kz):
+                            ok = False
+                            break
+                        kwargs[kz.as_string()] = vv
+                    if ok:
                         continue
                 raise Unsupported('**kwargs call')
             kwargs[k.arg] = self.eval(k.value, fr)
@@ -1010,6 +1019,10 @@ class Interp:
 
     def call_function(self, fi, args, kwargs, fr, recv_cls=None):
         """Call of a function defined in the program: by contract, or inlined if declared inline."""
+        if fi.is_ctxmgr:
+            modfr = Frame(fi, fi.module, fi.cls, {}, None)
+            bound = self.bind_params(fi.node, args, kwargs, modfr, fi.qual)
+            return self.ctx.alloc(HObj('ctxmgr', 'ctxmgr', {'fi': fi, 'bound': bound, 'recv_cls': recv_cls}, closed=True))
         con = self.reg.contract_for(fi.qual, recv_cls)
         modfr = Frame(fi, fi.module, fi.cls, {}, None)
         bound = self.bind_params(fi.node, args, kwargs, modfr, fi.qual)
@@ -1067,7 +1080,12 @@ class Interp:
             return self.reg.heap_hook('grid').deepcopy(self, args[0])
         con = self.reg.extern_contract(name)
         if con is None:
-            raise Unsupported('external call %s has no assumed contract' % name)
+            if name.startswith('opaque.') or not self.reg.allow_unknown_externs:
+                raise Unsupported('external call %s has no assumed contract' % name)
+            # an external function nothing is known about: an arbitrary result, no effect on the program's own
+            # state (over-approximates the value; listed in the evidence as unmodelled)
+            self.ctx.trust('unmodelled external call %s: arbitrary result, assumed not to touch pexpect objects' % name)
+            return VAny(self.ctx._const('ext.' + name.replace('.', '_'), Val))
         bound = con.bind(args, kwargs, self)
         self.ctx.trust('assumed contract: ' + name)
         return self.apply_contract(con, bound, fr, name)
@@ -1362,11 +1380,44 @@ class Interp:
                 return True
         return False
 
+    def e_Yield(self, node, fr):
+        cb = getattr(fr, 'yield_cb', None)
+        if cb is None:
+            raise Unsupported('yield outside a @contextmanager function used in a with statement')
+        v = self.eval(node.value, fr) if node.value is not None else VNone()
+        cb(v)
+        return VNone()
+
     def s_With(self, node, fr):
         if len(node.items) != 1:
             raise Unsupported('multi-item with')
         item = node.items[0]
         cm = self.eval(item.context_expr, fr)
+        if isinstance(cm, VObj) and self.ctx.heap[cm.oid].kind == 'ctxmgr':
+            # @contextmanager generator: its body runs with the with-block spliced in at the yield, so
+            # exceptions of the block surface at the yield exactly as in Python
+            h = self.ctx.heap[cm.oid]
+            fi = h.fields['fi']
+            gfr = Frame(fi, fi.module, fi.cls, dict(h.fields['bound']), self.reg.contract_for(fi.qual))
+            gfr.recv_cls = h.fields['recv_cls']
+            gfr.pre_heap, gfr.pre_args, gfr.pre_ghost = fr.pre_heap, fr.pre_args, fr.pre_ghost
+            done = []
+
+            def at_yield(v):
+                done.append(1)
+                if item.optional_vars is not None:
+                    self.assign(item.optional_vars, v, fr)
+                self.exec_block(node.body, fr)
+            gfr.yield_cb = at_yield
+            try:
+                self.exec_block(fi.node.body, gfr)
+            except _Return as r:
+                if getattr(r, 'from_with_body', False) or done:
+                    # a return travelling out of the with-block (through the generator's finally clauses)
+                    if r.__dict__.get('gen_return'):
+                        return
+                    raise
+            return
         hook = self.reg.with_hook(self, cm)
         if hook is None:
             raise Unsupported('with statement over %r' % (cm,))
@@ -1448,8 +1499,21 @@ class Interp:
             ctx.oblige('%s.inv-init.%s' % (lid, cid), f, 'inv-init', lid)
         # havoc
         lvars = spec.vars(sv) if callable(spec.vars) else spec.vars
+        implicit_none = []
         for name, ty in lvars.items():
             fr.locals[name] = ctx.fresh(ty, '%s.%s' % (lid, name))
+        # every other local the loop body assigns is forgotten too (same type as before the loop, or unbound)
+        for name in assigned_names(node):
+            if name in lvars or name.startswith('_i'):
+                continue
+            cur = fr.locals.get(name)
+            ty = type_of_value(cur)
+            if isinstance(cur, VNone):
+                implicit_none.append(name)      # implicit invariant "stays None", re-checked at the back edge
+            elif ty is None:
+                fr.locals.pop(name, None)
+            else:
+                fr.locals[name] = ctx.fresh(ty, '%s.%s' % (lid, name))
         if ghost_i:
             fr.locals[ghost_i] = ctx.fresh(T.Int, lid + '.i')
         pre_sv = StateView(ctx, fr)
@@ -1495,6 +1559,9 @@ class Interp:
             sv3.iter = iterable
             for cid, f in spec.invariant(sv3):
                 ctx.oblige('%s.inv-step.%s' % (lid, cid), f, 'inv-step', lid)
+            for name in implicit_none:
+                ctx.oblige('%s.inv-step.implicit.%s-stays-None' % (lid, name), isinstance(fr.locals.get(name), VNone),
+                           'inv-step', lid)
             if variant0 is not None:
                 v1 = spec.variant(sv3)
                 ctx.oblige('%s.variant' % lid, z3.And(variant0 >= 0, v1 < variant0), 'variant', lid)
@@ -1566,6 +1633,35 @@ class ContractView:
     def draw(self, ty, hint):
         """A fresh value of the given type (existential witness of an assumed contract)."""
         return to_spec(self.ctx, self.ctx.heap, self.ctx.fresh(ty, '%s.%s' % (self.what, hint) if self.what else hint))
+
+
+def assigned_names(loopnode):
+    """names bound anywhere in the loop (targets of assignments, for-targets, with-as, except-as)"""
+    out = []
+    for n in ast.walk(loopnode):
+        if isinstance(n, ast.Name) and isinstance(n.ctx, ast.Store):
+            if n.id not in out:
+                out.append(n.id)
+        elif isinstance(n, ast.ExceptHandler) and n.name and n.name not in out:
+            out.append(n.name)
+    return out
+
+
+def type_of_value(v):
+    if isinstance(v, VInt):
+        return T.Int
+    if isinstance(v, VReal):
+        return T.Real
+    if isinstance(v, VBool):
+        return T.Bool
+    if isinstance(v, VStr):
+        return TStr(v.kind)
+    if isinstance(v, VAny):
+        return T.Any
+    if isinstance(v, VOpt):
+        inner = type_of_value(v.inner)
+        return TOpt(inner) if inner is not None else None
+    return None
 
 
 def ast_load(target):
